@@ -86,6 +86,13 @@ func (i *vectorAggIterator) Next(r *Step) bool {
 	}
 	result := map[GroupingKey]*group{}
 
+	// Input order is not defined (samples come from a map iteration) and floating point
+	// addition is not associative, so order samples by key to get the same sum, average
+	// or deviation every time.
+	slices.SortFunc(step.Samples, func(a, b Sample) int {
+		return cmp.Compare(a.Set.Key(), b.Set.Key())
+	})
+
 	for _, s := range step.Samples {
 		metric := i.grouper(s.Set, i.groupLabels...)
 		groupKey := metric.Key()
